@@ -117,13 +117,12 @@ impl<'a, 'b, 'c> AdtDeserializer<'a, 'b, 'c> {
                 let result = if self.made_optional_at.contains_key(&field_position) {
                     // The field was made optional in a newer version, so we have to read Option<T>
 
-                    let is_defined = bool::deserialize(self.context)?;
-                    if is_defined {
-                        T::deserialize(self.context)
-                    } else {
-                        Err(Error::NonOptionalFieldSerializedAsNone(
+                    match bool::deserialize(self.context) {
+                        Ok(true) => T::deserialize(self.context),
+                        Ok(false) => Err(Error::NonOptionalFieldSerializedAsNone(
                             field_name.to_string(),
-                        ))
+                        )),
+                        Err(err) => Err(err),
                     }
                 } else {
                     T::deserialize(self.context)
@@ -168,7 +167,7 @@ impl<'a, 'b, 'c> AdtDeserializer<'a, 'b, 'c> {
                     self.context.push_region(self.inputs[chunk as usize]);
                 }
                 let result = if self.stored_version < opt_since {
-                    Ok(Some(T::deserialize(self.context)?))
+                    T::deserialize(self.context).map(Some)
                 } else {
                     Option::<T>::deserialize(self.context)
                 };
@@ -191,7 +190,7 @@ impl<'a, 'b, 'c> AdtDeserializer<'a, 'b, 'c> {
             if has_inputs {
                 self.context.push_region(self.inputs[0]);
             }
-            let result = Ok(Some(deserialize_case(self.context)?));
+            let result = deserialize_case(self.context).map(Some);
             if has_inputs {
                 self.inputs[0] = self.context.pop_region();
             }
@@ -222,10 +221,11 @@ impl<'a, 'b, 'c> AdtDeserializer<'a, 'b, 'c> {
                 if has_inputs {
                     self.context.push_region(self.inputs[0]);
                 }
-                let constructor_idx = self.context.read_var_u32()?;
+                let constructor_idx = self.context.read_var_u32();
                 if has_inputs {
                     self.inputs[0] = self.context.pop_region();
                 }
+                let constructor_idx = constructor_idx?;
                 self.read_constructor_idx = Some(constructor_idx);
                 Ok(constructor_idx)
             }
